@@ -25,7 +25,7 @@ def implied_gran(cpu, seg=1):
 
 
 SEGNAMES = {0: "NOTHING", 1: "CODE", 2: "DATA", 3: "IDATA", 4: "XDATA", 5: "YDATA", 6: "BITDATA",
-            7: "IO", 8: "REG", 9: "ROMDATA"}
+            7: "IO", 8: "REG", 9: "ROMDATA", 10: "EEDATA"}     # 10: not in doc/file-formats.md, named so by plist
 
 
 class FormatError(Exception):
@@ -126,7 +126,7 @@ def parse(buf, strict=True):
         for r in recs:
             if r["kind"] != "data":
                 continue
-            if not (0 <= r["seg"] <= 9):
+            if not (0 <= r["seg"] <= 10):
                 raise FormatError("segment %d out of range" % r["seg"])
             if r["gran"] not in (1, 2, 4, 8):
                 raise FormatError("granularity %d" % r["gran"])
